@@ -35,6 +35,10 @@ func allCfgs() []blockCfg {
 			}
 		}
 	}
+	// plus, per height, one block whose fourth transaction is confidential (account -> UTXO)
+	for h := 1; h <= 3; h++ {
+		out = append(out, blockCfg{h, 4, h - 1})
+	}
 	return out
 }
 
@@ -115,7 +119,8 @@ func replay(r *vk.Run) {
 			same = same && res.ident.parts[k].Equals(baseID.parts[k])
 		}
 		if same && res.dump != dumpHash(base) {
-			r.Violation("identity-unchanged:"+variantClass(ps, v), "replayed: id unchanged by "+variantName(ps, v), rc)
+			sig := diffSignature(dumpOfVariant(base, ps, v), dump(base))
+			r.Violation("identity-collision:"+sig, "replayed: id unchanged by "+variantName(ps, v), rc)
 		}
 	case rc.Search != "":
 		var c blockCfg
